@@ -14,8 +14,10 @@ with `endOfDayFrag`, the enumerated timezone literals) and the value `Timeline.o
   `Timeline.ofFields f.year f.month f.day f.hour f.minute f.second us f.tz` (`24:00:00` = the first instant of the next day);
 * the literal is outside the lexical space  →  the constructor raises (ValueError, or OverflowError for a huge year).
 -/
-import EPV.Lemmas.LexicalDate
+import EPV.Lemmas.LexicalDateWS
 import EPV.Lemmas.CalendarLex
+import EPV.Props.C10Dur
+import EPV.Props.C10Greg
 namespace EPV.C10
 open EPV EPV.LexLemmas EPV.Cal
 
@@ -24,33 +26,47 @@ exactly the literals `yearFrag '-' monthFrag '-' dayFrag timezoneFrag?` whose da
 (proleptic Gregorian, astronomical) year — no leading zero beyond four year digits, no year 0000 in XSD 1.0 where `-0001`
 is 1 BCE, year 0000 = 1 BCE in XSD 1.1 — and the value has the fields of the literal. -/
 theorem date_ctor_iff_lexical (v11 : Bool) (s : List Char) :
-    Agrees (dateOfLex v11 s) 0 (XSD.dateLex v11 (Lex.pyStrip s)) := date_agrees v11 s
+    Agrees (dateOfLex v11 s) 0 (XSD.dateLex v11 (XSD.wsCollapse s)) := by
+  rw [← dateLex_strip]; exact date_agrees v11 s
 
 /-- **ctor_iff_lexical (xs:dateTime)**: in addition the time of day `hourFrag ':' minuteFrag ':' secondFrag` or
 `endOfDayFrag` (`24:00:00(.0+)?`); the fraction of the seconds is cut to microseconds (`XSD.microTrunc`) -/
 theorem dateTime_ctor_iff_lexical (v11 : Bool) (s : List Char) :
-    Agrees (dateTimeOfLex v11 s) (usOf (XSD.dateTimeLex v11 (Lex.pyStrip s))) (XSD.dateTimeLex v11 (Lex.pyStrip s)) :=
-  dateTime_agrees v11 s
+    Agrees (dateTimeOfLex v11 s) (usOf (XSD.dateTimeLex v11 (XSD.wsCollapse s))) (XSD.dateTimeLex v11 (XSD.wsCollapse s)) := by
+  rw [← dateTimeLex_strip]; exact dateTime_agrees v11 s
 
 /-- **ctor_iff_lexical (xs:dateTimeStamp)**: xs:dateTime with the timezone required (XSD 1.1 §3.4.28) -/
 theorem dateTimeStamp_ctor_iff_lexical (s : List Char) :
-    Agrees (Lex.dateTimeStampOfLex s) (usOf (XSD.dateTimeStampLex true (Lex.pyStrip s)))
-      (XSD.dateTimeStampLex true (Lex.pyStrip s)) := dateTimeStamp_agrees s
+    Agrees (Lex.dateTimeStampOfLex s) (usOf (XSD.dateTimeStampLex true (XSD.wsCollapse s)))
+      (XSD.dateTimeStampLex true (XSD.wsCollapse s)) := by
+  rw [← dateTimeStampLex_strip]; exact dateTimeStamp_agrees s
 
 /-- **ctor_iff_lexical (xs:gYear)** -/
 theorem gYear_ctor_iff_lexical (v11 : Bool) (s : List Char) :
-    Agrees (gOfLex .gYear v11 s) 0 (XSD.gYearLex v11 (Lex.pyStrip s)) := gYear_agrees v11 s
+    Agrees (gOfLex .gYear v11 s) 0 (XSD.gYearLex v11 (XSD.wsCollapse s)) := by
+  rw [← gYearLex_strip]; exact gYear_agrees v11 s
 
 /-- **ctor_iff_lexical (xs:gYearMonth)** -/
 theorem gYearMonth_ctor_iff_lexical (v11 : Bool) (s : List Char) :
-    Agrees (gOfLex .gYearMonth v11 s) 0 (XSD.gYearMonthLex v11 (Lex.pyStrip s)) := gYearMonth_agrees v11 s
+    Agrees (gOfLex .gYearMonth v11 s) 0 (XSD.gYearMonthLex v11 (XSD.wsCollapse s)) := by
+  rw [← gYearMonthLex_strip]; exact gYearMonth_agrees v11 s
+
+/-- the constructors strip (`strip(' \\t\\n\\r')`) where XSD collapses: the productions contain no white space, so the two
+normalisations give the same verdict and the same fields (`LexLemmas.strip_vs_collapse_opt`, `pyStrip_or_white`) -/
+theorem date_lexical_strip_eq_collapse (v11 : Bool) (s : List Char) :
+    XSD.dateLex v11 (Lex.pyStrip s) = XSD.dateLex v11 (XSD.wsCollapse s) ∧
+    XSD.dateTimeLex v11 (Lex.pyStrip s) = XSD.dateTimeLex v11 (XSD.wsCollapse s) ∧
+    XSD.gYearLex v11 (Lex.pyStrip s) = XSD.gYearLex v11 (XSD.wsCollapse s) ∧
+    XSD.gYearMonthLex v11 (Lex.pyStrip s) = XSD.gYearMonthLex v11 (XSD.wsCollapse s) :=
+  ⟨dateLex_strip v11 s, dateTimeLex_strip v11 s, gYearLex_strip v11 s, gYearMonthLex_strip v11 s⟩
 
 /-- acceptance alone, xs:date: inside the year limit the constructor succeeds exactly on the lexical space -/
 theorem date_ctor_accepts_iff (v11 : Bool) (s : List Char)
-    (hy : ∀ f, XSD.dateLex v11 (Lex.pyStrip s) = some f → (internal f.year).natAbs < 2 ^ 31) :
-    (∃ w, dateOfLex v11 s = .ok w) ↔ (XSD.dateLex v11 (Lex.pyStrip s)).isSome = true := by
+    (hy : ∀ f, XSD.dateLex v11 (XSD.wsCollapse s) = some f → (internal f.year).natAbs < 2 ^ 31) :
+    (∃ w, dateOfLex v11 s = .ok w) ↔ (XSD.dateLex v11 (XSD.wsCollapse s)).isSome = true := by
   have h := date_agrees v11 s
-  cases hf : XSD.dateLex v11 (Lex.pyStrip s) with
+  rw [dateLex_strip] at h
+  cases hf : XSD.dateLex v11 (XSD.wsCollapse s) with
   | none =>
     rw [hf] at h
     obtain ⟨e, he⟩ := h
@@ -111,6 +127,20 @@ theorem gYearMonth_string_cast_roundtrip (v11 : Bool) (v : DT) (hs : GShape .gYe
   cases hf : XSD.gYearMonthLex v11 (Lex.pyStrip (fmtG .gYearMonth v11 v)) with
   | none => rw [hf] at h; obtain ⟨e, he⟩ := h; rw [h1] at he; cases he
   | some f => rfl
+
+/-! ### the same step for the types of phase 2, whose theorems were stated after `strip` -/
+
+/-- **ctor_iff_lexical (xs:time, xs:gDay, xs:gMonth, xs:gMonthDay)** with the XSD normalisation (full strength of
+`greg_ctor_iff_lexical`) -/
+theorem greg_ctor_iff_lexical_spec (k : Lex.GKind) (s : List Char) :
+    Lex.gCtor k s = (specOf k (XSD.wsCollapse s)).map toDT := by
+  rw [← specOf_strip]; exact gParse_eq k (Lex.pyStrip s)
+
+/-- **ctor_iff_lexical (xs:duration)** with the XSD normalisation (full strength of `dur_ctor_value_error_iff`): the
+constructor raises `ValueError` exactly outside the lexical space of the collapsed string -/
+theorem dur_ctor_value_error_iff_spec (s : List Char) :
+    Lex.durCtor .duration s = .error .value ↔ ¬ XSD.DurationLex (XSD.wsCollapse s) := by
+  rw [← durationLex_strip]; exact dur_ctor_value_error_iff s
 
 /-- tests on literals (kernel evaluation of the specification): leap days in both eras and numberings, year 0000, leading
 zeros, the end-of-day form, the timezone requirement of xs:dateTimeStamp -/
